@@ -998,7 +998,7 @@ def _flag_vars(fn):
     return sorted(n for n in stores if n not in bad and n not in addr_taken and n in tested)
 
 
-def partition_flags(fn, max_flags=4, max_blocks=900):
+def partition_flags(fn, max_flags=8, max_blocks=1200):
     """Trace partitioning on flag locals: a local that is only ever assigned
     integer constants or boolean expressions and is tested in a branch is
     eliminated from the control flow by splitting every block per known value of
@@ -1007,9 +1007,19 @@ def partition_flags(fn, max_flags=4, max_blocks=900):
     what the path rules reason about.  Purely a CFG refinement: every path of
     the result is a path of the source with the same events."""
     done = []
-    for name in _flag_vars(fn)[:max_flags]:
-        if _partition_one(fn, name, max_blocks):
-            done.append(name)
+    tried = set()
+    for _round in range(6):
+        progress = False
+        for name in _flag_vars(fn):
+            if name in tried or len(done) >= max_flags:
+                continue
+            tried.add(name)
+            if _partition_one(fn, name, max_blocks):
+                done.append(name)
+                progress = True
+        # partitioning one flag turns copies of it (`c = $ret2`) into constant stores: c may be a flag now
+        if not progress:
+            break
     return done
 
 
@@ -1222,6 +1232,7 @@ def _fuse_list_idioms(evs):
     (adjacent in one block, only reads in between)."""
     def callee(e):
         return e.get('callee') if e['ev'] == 'call' else None
+    evs = _fuse_open_coded_links(evs)
     out = []
     i = 0
     while i < len(evs):
@@ -1244,6 +1255,100 @@ def _fuse_list_idioms(evs):
                     i = j + 1
                     continue
         out.append(e)
+        i += 1
+    return out
+
+
+def _fuse_open_coded_links(evs):
+    """The bodies of iv_list_add / iv_list_add_tail / iv_list_del written out at the use site (four stores to
+    iv_list_head.next/prev, only reads in between, in an order that is equivalent to the helper's) become the
+    helper's call event; the first two stores of iv_list_del followed by INIT_IV_LIST_HEAD are iv_list_del_init."""
+    def lstore(e):
+        if e['ev'] != 'store' or e.get('op') != '=' or 'rhs' not in e:
+            return None
+        l = strip(e['lhs'])
+        if not (isinstance(l, dict) and l.get('k') == 'member' and l.get('record') == 'iv_list_head' and l['field'] in ('next', 'prev')):
+            return None
+        base = l['base'] if l['arrow'] else {'k': 'addr', 'e': l['base']}
+        return (canon(simplify(base)), l['field'], canon(e['rhs']), base, e['rhs'])
+
+    def fld(ptr, f):
+        return canon(simplify({'k': 'member', 'base': ptr, 'field': f, 'arrow': True, 'record': 'iv_list_head'}))
+
+    def is_null(x):
+        return canon(x) in ('NULL', '0')
+
+    out = []
+    i = 0
+    n = len(evs)
+    while i < n:
+        s0 = lstore(evs[i])
+        if s0 is None:
+            out.append(evs[i])
+            i += 1
+            continue
+        # collect up to 4 list stores separated only by loads
+        idx, j = [], i
+        while j < n and len(idx) < 4:
+            if lstore(evs[j]) is not None:
+                idx.append(j)
+            elif evs[j]['ev'] != 'load':
+                break
+            j += 1
+        sts = [lstore(evs[k]) for k in idx]
+        made = None
+        if len(sts) == 4:
+            pos = {(b, f, r): k for k, (b, f, r, _, _) in enumerate(sts)}
+            for (b, f, r, bx, rx) in sts:
+                # add_tail(N, H): N->next = H
+                if f == 'next':
+                    N, H = b, r
+                    want = {(N, 'next', H): 0, (N, 'prev', fld(rx, 'prev')): 1, (fld(rx, 'prev'), 'next', N): 2, (H, 'prev', N): 3}
+                    if set(want) == set(pos) and N != H and pos[(fld(rx, 'prev'), 'next', N)] < pos[(H, 'prev', N)] \
+                            and pos[(N, 'prev', fld(rx, 'prev'))] < pos[(H, 'prev', N)]:
+                        made = ('iv_list_add_tail', [bx, rx])
+                        break
+                # add(N, H): N->prev = H
+                if f == 'prev':
+                    N, H = b, r
+                    want = {(N, 'prev', H), (N, 'next', fld(rx, 'next')), (fld(rx, 'next'), 'prev', N), (H, 'next', N)}
+                    if want == set(pos) and N != H and pos[(fld(rx, 'next'), 'prev', N)] < pos[(H, 'next', N)] \
+                            and pos[(N, 'next', fld(rx, 'next'))] < pos[(H, 'next', N)]:
+                        made = ('iv_list_add', [bx, rx])
+                        break
+            if made is None:
+                # del(N): N->prev->next = N->next; N->next->prev = N->prev; N->prev = NULL; N->next = NULL
+                for (b, f, r, bx, rx) in sts:
+                    if is_null(rx) and f == 'prev':
+                        N = b
+                        a1, a2 = (fld(bx, 'prev'), 'next', fld(bx, 'next')), (fld(bx, 'next'), 'prev', fld(bx, 'prev'))
+                        nulls = [k for k, (b2, f2, r2, _, rx2) in enumerate(sts) if b2 == N and is_null(rx2)]
+                        if a1 in pos and a2 in pos and len(nulls) == 2 and max(pos[a1], pos[a2]) < min(nulls):
+                            made = ('iv_list_del', [bx])
+                            break
+        if made is not None:
+            out.extend(e for k, e in enumerate(evs[i:idx[-1] + 1]) if (i + k) not in idx)
+            out.append({'ev': 'call', 'callee': made[0], 'args': made[1], 'loc': evs[i]['loc'], 'used': False,
+                        'synthetic': True, 'fused': True})
+            i = idx[-1] + 1
+            continue
+        if len(sts) >= 2:
+            # del_init(N): the two unlink stores, then INIT_IV_LIST_HEAD(N)
+            (b1, f1, r1, bx1, rx1), (b2, f2, r2, bx2, rx2) = sts[0], sts[1]
+            k = idx[1] + 1
+            while k < n and evs[k]['ev'] == 'load':
+                k += 1
+            if k < n and evs[k]['ev'] == 'call' and evs[k].get('callee') == 'INIT_IV_LIST_HEAD' and evs[k].get('args'):
+                Nx = evs[k]['args'][0]
+                a1 = (fld(Nx, 'prev'), 'next', fld(Nx, 'next'))
+                a2 = (fld(Nx, 'next'), 'prev', fld(Nx, 'prev'))
+                if {(b1, f1, r1), (b2, f2, r2)} == {a1, a2}:
+                    out.extend(e for kk, e in enumerate(evs[i:k]) if (i + kk) not in idx[:2])
+                    out.append({'ev': 'call', 'callee': 'iv_list_del_init', 'args': [Nx], 'loc': evs[i]['loc'], 'used': False,
+                                'synthetic': True, 'fused': True})
+                    i = k + 1
+                    continue
+        out.append(evs[i])
         i += 1
     return out
 
@@ -1678,10 +1783,17 @@ class Inliner:
                     if isinstance(rep, str):
                         m = dict(n)
                         m['name'] = rep
+                        m['vk'] = 'local'        # a renamed callee parameter is a local of the inlined function
                         return m
                     return copy.deepcopy(rep)
                 return None
-            return simplify(subst(x, r))
+            out = simplify(subst(x, r))
+            # the local a copy-propagated read was cached in is renamed together with the locals
+            for nd in walk(out):
+                w = nd.get('_was')
+                if w is not None and isinstance(ren.get(w), str):
+                    nd['_was'] = ren[w]
+            return out
 
         # first pass: allocate ids for f's blocks lazily
         def bid(old):
@@ -1704,7 +1816,7 @@ class Inliner:
                     return x
                 def r(n):
                     if n.get('k') == 'call' and (n.get('callee'), n.get('loc')) in repl:
-                        return dict(repl[(n.get('callee'), n.get('loc'))])
+                        return {'k': 'load', 'e': dict(repl[(n.get('callee'), n.get('loc'))])}
                     return None
                 return subst(x, r)
 
